@@ -16,6 +16,9 @@ Definition documented_allocating_files : list string := ["generate_easy_std.rs"]
 Definition nonallocating_std_names : list string := [
   "std::arch::is_x86_feature_detected";
   "std::arch::is_arm_feature_detected";
+  "is_x86_feature_detected!";
+  "is_arm_feature_detected!";
+  "is_aarch64_feature_detected!";
   "std::sync::OnceLock";
   "std::error::Error";
   "std::io::Error"
